@@ -1028,11 +1028,12 @@ func c03Stream(c *fw.Ctx, data string, thorough bool) {
 			}
 		}
 		// (iv) single-byte corruptions: replacement and insertion - the structural bytes with every schedule of the explorer, every
-		// other byte value (controls such as 0x1e, DEL, bytes that are not UTF-8) under the default schedule and one byte per Read
+		// other byte value (controls such as 0x1e, DEL, bytes that are not UTF-8) under the default schedule (thorough: all 256
+		// values, and one byte per Read for the 32 of the quick tier)
 		for k := 0; k <= len(data); k++ {
 			for bv := 0; bv < 256; bv++ {
 				b := byte(bv)
-				if bytes.IndexByte(c03Corrupt, b) >= 0 || (!thorough && (prog != 0 || bytes.IndexByte(c03CorruptQuick, b) < 0)) {
+				if bytes.IndexByte(c03Corrupt, b) >= 0 || prog != 0 || (!thorough && bytes.IndexByte(c03CorruptQuick, b) < 0) {
 					continue
 				}
 				var variants []string
@@ -1044,7 +1045,7 @@ func c03Stream(c *fw.Ctx, data string, thorough bool) {
 					cex := c03Model(prog, d)
 					ob := &c03Case{Data: d, Prog: prog, AllChunk: true}
 					c.Do(func() any { return ob }, func() *fw.Violation { _, v := c03Run(c, ob, &cex, make([]int, len(d)+1)); return v })
-					if !thorough {
+					if !thorough || bytes.IndexByte(c03CorruptQuick, b) < 0 {
 						continue
 					}
 					sched := make([]int, len(d))
@@ -1249,4 +1250,138 @@ func c03LongStream(c *fw.Ctx, n int) *fw.Violation {
 	}
 	_, v := c03Run(c, cs, &ex, sched)
 	return v
+}
+
+// c03BurstStream: the first Read is answered with as many bytes as were asked for (a source that has data ready fills the
+// buffer), every later Read with the rest of one value and one byte behind it. The same monitor as in c03Reader: no Read may be
+// issued while the output of a value that was complete, and followed by a byte, at that moment is not written.
+type c03Burst struct {
+	data   []byte
+	pos    int
+	reads  int
+	burst  int // Reads answered with a full buffer
+	bounds []int
+	cum    []int
+	out    *c03Writer
+	late   string
+}
+
+func (r *c03Burst) Read(p []byte) (int, error) {
+	r.reads++
+	if r.late == "" {
+		for i, b := range r.bounds {
+			if b+1 <= r.pos && r.out.n < r.cum[i+1] {
+				r.late = fmt.Sprintf("Read #%d issued with %d bytes handed out: value %d ended at offset %d but only %d of its %d output bytes are written", r.reads, r.pos, i+1, b, r.out.n, r.cum[i+1])
+				break
+			}
+		}
+	}
+	rem := len(r.data) - r.pos
+	if rem == 0 {
+		return 0, io.EOF
+	}
+	n := rem
+	if r.reads <= r.burst {
+		if n > len(p) {
+			n = len(p)
+		}
+	} else {
+		for _, b := range r.bounds {
+			if b >= r.pos && b+1-r.pos >= 1 {
+				if b+1-r.pos < n {
+					n = b + 1 - r.pos
+				}
+				break
+			}
+		}
+		if n > len(p) {
+			n = len(p)
+		}
+	}
+	copy(p, r.data[r.pos:r.pos+n])
+	r.pos += n
+	return n, nil
+}
+
+func c03BurstStream(c *fw.Ctx, n int) *fw.Violation {
+	var sb strings.Builder
+	for k := 1; k <= n; k++ {
+		switch k % 3 {
+		case 0:
+			fmt.Fprintf(&sb, "[%d]\n", k)
+		case 1:
+			fmt.Fprintf(&sb, "%d ", k)
+		default:
+			fmt.Fprintf(&sb, "{\"v\": \"s%d\"} ", k)
+		}
+	}
+	data := sb.String()
+	ex := c03Model(0, data)
+	if ex.status != StreamClean || ex.nvals != n {
+		panic("c03BurstStream: generated stream is not clean")
+	}
+	for _, burst := range []int{1, 2, 3} {
+		w := &c03Writer{}
+		r := &c03Burst{data: []byte(data), burst: burst, bounds: ex.bounds, cum: ex.cum, out: w}
+		s := drive.Spec{Program: Source(c03Progs[0], Style{}), Files: []drive.File{{Name: "in.json", Reader: r}}, Stdout: w, Budget: 5000000 + 2000*int64(n)}
+		o := run(c, s)
+		c.Traces++
+		what := ""
+		switch {
+		case o.Kind != drive.KNone:
+			what = "a clean stream ended in an error"
+		case o.Stdout != ex.full[ex.nvals]:
+			what = "output of a clean stream differs from processing its values one after another"
+		case r.late != "":
+			what = "the interpreter waited for later input before processing a complete value: " + r.late
+		}
+		if what != "" {
+			o.Ev, o.Stdout = nil, clip(o.Stdout)
+			return &fw.Violation{What: fmt.Sprintf("after %d Read(s) answered with a full buffer: %s", burst, what), Detail: map[string]any{"values": n, "bytes": len(data), "got": o}}
+		}
+	}
+	return nil
+}
+
+// c03BigThenBad: a value of `big` bytes, two small values, then a malformed byte, delivered in Reads of at most `chunk` bytes
+// (0: whatever is asked for). The values in front of the fault are processed, the fault is a JSON input error naming the file,
+// whatever the two sizes are.
+var c03BigThenBadGrid = func() [][2]int {
+	var out [][2]int
+	for _, big := range []int{10, 500, 4000, 4096, 5000, 7680, 7681, 8192, 12000, 70000} {
+		for _, chunk := range []int{1, 7, 512, 4096, 4097, 5000, 8192, 0} {
+			if chunk == 1 && big > 12000 {
+				continue
+			}
+			out = append(out, [2]int{big, chunk})
+		}
+	}
+	return out
+}()
+
+func c03BigThenBad(c *fw.Ctx, n int) *fw.Violation {
+	big, chunk := c03BigThenBadGrid[n-1][0], c03BigThenBadGrid[n-1][1]
+	for _, tail := range []string{" x", "\n[1, }", " {\"k\" 1}", "\n\"open"} {
+		data := "\"" + strings.Repeat("a", big) + "\" \"bc\"\n[\"d\"]" + tail
+		s := drive.Spec{Program: "{ print $.length() }\nEND { print \"end\" }\n", Files: []drive.File{{Name: "in.json", Reader: &chunkReader{data: []byte(data), chunk: chunk}}}, Budget: 50000000}
+		o := run(c, s)
+		c.Traces++
+		want := fmt.Sprintf("%d\n2\n1\n", big)
+		what := ""
+		switch {
+		case o.Kind == drive.KPanic || o.Kind == drive.KOther:
+			what = "implementation panicked or returned a foreign error"
+		case o.Kind != drive.KJson:
+			what = "a malformed stream was not reported as a JSON input error"
+		case o.FileName != "in.json":
+			what = "the JSON input error does not name the file"
+		case o.Stdout != want:
+			what = "before the JSON input error, the output is not that of the complete values"
+		}
+		if what != "" {
+			o.Ev, o.Stdout = nil, clip(o.Stdout)
+			return &fw.Violation{What: fmt.Sprintf("a value of %d bytes, Reads of at most %d bytes: %s", big, chunk, what), Detail: map[string]any{"tail": tail, "want_stdout": want, "got": o}}
+		}
+	}
+	return nil
 }
